@@ -6,6 +6,13 @@
     harness, including expunged ones), UIDNEXT is greater than every existing
     UID and not greater than the next UID assigned, APPENDUID names the UIDs
     that then exist, UIDVALIDITY and UIDs travel with RENAME.
+(a2) Two or three additions to the same mailbox (APPEND / COPY / MOVE as the
+    real MailboxData coroutines) really interleaving: the mailbox locks are a
+    stub with the real exclusion semantics whose acquisition may be delayed
+    by a third party, the scheduler's choices are drawn from the engine, the
+    UID counters are symbolic: the UIDs handed out are pairwise distinct,
+    greater than every earlier one, and each denotes the message it was
+    reported for.
 (b) COPYUID text: for symbolic (source, destination) pairs, expanding the two
     sets of the rendered response code in order and zipping gives the pairs.
 (c) the dovecot-uidlist text (maildir): header and record lines round-trip.
@@ -40,8 +47,10 @@ ASSUMPTIONS = [
     'leading colon-free ambiguity, no trailing whitespace in file names), <= 3 characters',
     'UIDVALIDITY of a re-created mailbox of the same name is not claimed to differ (time + 16 random bits)',
 ]
-STUBS = ['coroutines driven with send(None)', 'sessions attached directly']
-OUTSIDE = ['maildir UID assignment across restart and crash points (C15)', 'concurrent appenders inside one command']
+STUBS = ['coroutines driven with send(None)', 'sessions attached directly',
+         'concurrent_adders: mailbox read-write locks replaced by an exclusion-preserving stub whose acquisition may be '
+         'delayed (third-party contention); the lock implementation itself is C20']
+OUTSIDE = ['maildir UID assignment across restart and crash points (C15)', 'more than 3 concurrent additions']
 
 _g: dict = {}
 OPS = ['append', 'expunge_highest', 'copy_self', 'copy_other', 'move_other', 'rename', 'status', 'append_other']
@@ -308,6 +317,19 @@ def harnesses(tier):
         hs.append(Harness('uid_history[m=%d,d=%d]' % (m, d), _h_history(m, d, ops),
                           {'initial_messages': m, 'history_depth': d, 'ops': ops, 'uid_base': 'unbounded'},
                           replay='history', task_budget=60))
+    from checks import _conc
+    for nt, nd in ([(2, 3)] if q else [(2, 6), (3, 3)]):
+        hs.append(Harness('concurrent_adders[tasks=%d,delays<=%d]' % (nt, nd), _conc.adders_harness(_g, nt, 'uid', nd),
+                          {'tasks': nt, 'ops': _conc.ADD_OPS, 'third_party_delays': nd, 'uid_bases': 'symbolic'},
+                          replay='adders', task_budget=60))
+    from checks import c04_maildir
+    _g.setdefault('_mg', None)
+    if _g['_mg'] is None:
+        _g['_mg'] = c04_maildir.bindings()
+    for nt, rw in ([(2, 3)] if q else [(2, 5), (3, 3)]):
+        hs.append(Harness('maildir_uidlist_writers[tasks=%d,release<=%d]' % (nt, rw), c04_maildir.harness(_g['_mg'], nt, rw, 120 if q else 10010),
+                          {'tasks': nt, 'ops': c04_maildir.OPS, 'third_party_lock_release_within_steps': rw,
+                           'next_uid': 'symbolic, 2..120 (quick) / 2..10010 (thorough)'}, replay='mdwriters', task_budget=60))
     for k in range(1, (3 if q else 4) + 1):
         hs.append(Harness('copyuid_pairs[k=%d]' % k, _h_copyuid(k), {'pairs': k, 'numbers': '1..9999'},
                           replay='copyuid', task_budget=60))
@@ -334,6 +356,12 @@ def replay(harness, w):
         err = program(g, _sim, w['base'], w['m'], [tuple(x) for x in w['script']], check)
         if err:
             bad.append(err)
+    elif harness == 'mdwriters':
+        from checks import c04_maildir
+        bad.extend(c04_maildir.replay(w))
+    elif harness == 'adders':
+        from checks import _conc
+        bad.extend(_conc.adders_replay(g, _sim, w))
     elif harness == 'copyuid':
         pairs = [tuple(p) for p in w['pairs']]
         got, err = copyuid_pairs(g, pairs)
